@@ -50,9 +50,15 @@ CHECKS = {
     "C14": ("fault_enumeration", "4/C14", TECH + "undamaged parse shifted by the junk length; monotone offsets; failure kinds",
             "Per generated known-size document EVERY tag boundary receives 3 drawn junk runs (1-12 bytes that cannot begin an id of the specification); driver next()/try_recover(); the main clause is judged where the layout says its precondition holds, the general clause always.",
             "Trusted: reference encoder layout for boundaries and for the fits-after-shift precondition."),
+    "C17": ("exploration", "4/C17", TECH + "peak heap growth and bytes pulled vs bound (counting global allocator armed around library calls, lazy virtual source); error kind",
+            "Seeded hostile headers (declared sizes 0..2^56-2 around the limit and at powers of two, every width, at root / inside known-size (accurate or hostile) / unknown-size masters, all limits incl. the default 4e9, any tolerance subset, payload present/short/absent with the rest existing only virtually). Runs execute in 16 child processes because a refused allocation (>1 GiB) aborts; the parent maps an abort to the run announced last.",
+            "Trusted: the allocator accounting (per thread, only while a library call runs); the bound's slack (factor 8 + 4 KiB) is far below the hostile sizes that matter. In-limit sizes under the default limit are kept below 8 MiB."),
     "C19": ("fault_enumeration", "4/C19", TECH + "differential between a valid call history and the same history with failing calls inserted",
             "Per generated valid history a failing call of each kind is inserted at EVERY position (one at a time plus a few pairs); per-call results, delivered bytes after each original call and the into_inner() result are compared with the undisturbed history.",
             "Trusted: the construction of calls that must fail (ref_match for hierarchy, 2^(7w) bounds for widths); calls the writer accepts anyway are left to C11."),
+    "C20": ("exploration", "4/C20", TECH + "differential against the blocking iterator over the same bytes; single termination; lost wake-ups and poll budgets",
+            "Seeded async delivery schedules (fill-the-buffer reads, 1-byte dribble, single split, large head then dribble, random compositions; Pending with immediate or deferred wake) over valid / truncated / faulted inputs incl. inputs larger than the 64 KiB transfer buffer, with buffered-id sets, driving next() and the into_stream() adapter on a hand-written single-threaded executor.",
+            "Trusted: the blocking iterator's slice run as reference; the 40-line executor (no threads, no timers). Offsets are not observable through the stream adapter."),
 }
 
 NOT_APPLICABLE = {
